@@ -21,6 +21,9 @@ pub enum WOp {
     Set { t: u8, prop: String, value: Option<String>, secs: u32, nanos: u32 },
     Undo,
     Sync,
+    /// a sync during which request number `k` to the server fails: before the server sees it, or
+    /// (lost) after the server has carried it out
+    SyncFault { k: u8, lost: bool },
     /// one update of `kb` kilobytes (to cross the batching threshold)
     Big { t: u8, kb: u16 },
 }
@@ -51,6 +54,7 @@ fn wop_strategy() -> impl Strategy<Value = WOp> {
             .prop_map(|(t, prop, value, secs, nanos)| WOp::Set { t, prop, value, secs, nanos }),
         2 => Just(WOp::Undo),
         3 => Just(WOp::Sync),
+        1 => (0u8..4, any::<bool>()).prop_map(|(k, lost)| WOp::SyncFault { k, lost }),
     ]
 }
 
@@ -299,6 +303,17 @@ pub fn check_outbound(c: &OutCase) -> CheckResult {
             WOp::Undo => {
                 ops.push(Operation::UndoPoint);
                 rep.class("undo-point");
+            }
+            WOp::SyncFault { k, lost } => {
+                use crate::engine::mserver::ServerFault;
+                w.ctls[0].arm(vec![(*k as usize, if *lost { ServerFault::LostReply } else { ServerFault::ErrBefore })]);
+                let failed = w.sync(0).is_err();
+                w.ctls[0].disarm();
+                if failed {
+                    rep.class(if *lost { "sync-interrupted:reply-lost" } else { "sync-interrupted:request-failed" });
+                }
+                // what was sent is examined at the next successful sync
+                continue;
             }
             WOp::Sync => {
                 w.sync(0).map_err(|e| {
